@@ -26,7 +26,7 @@ from prompt_toolkit.utils import get_cwidth
 
 ID = "C10"
 DRIVER = "drv_c10"
-PROPS = ["Ptk.Props.C10"]
+PROPS = ["Ptk.Props.C10", "Ptk.Props.C10Copy", "Ptk.Props.C10Diff", "Ptk.Props.C10Tok", "Ptk.Props.C10Stream"]
 LEVEL_TEXT = (
     "Lean 4 theorems over an executable model of the display path: Char.__init__ over ANY display table "
     "satisfying decidable side conditions (re-decided by the kernel on the regenerated Char.display_mappings) "
@@ -61,8 +61,9 @@ ASSUMPTIONS = ["wcwidth of the running interpreter (regenerated table; theorems 
                "a terminal acts only on the control tokens recognised by the tokenizer (ECMA-48 C0/C1/ESC forms)"]
 PARTIAL_SCOPE = ["windows/conemu outputs not modelled (Vt100_Output only)",
                  "set_title, dumb-terminal prompt (_dumb_prompt) and patch_stdout raw mode are outside the anchors",
-                 "Window alignment (CENTER/RIGHT), cursor line/column highlighting, margins, menus and "
-                 "ScrollablePane are exercised end to end by the oracle only",
+                 "cursor line/column highlighting, digraph / pending-key display, fill_area restyling, menus and "
+                 "ScrollablePane are exercised end to end by the oracle only (they rebuild cells from "
+                 "existing cell text through _CHAR_CACHE: theorem mkCell_clean)",
                  "lone surrogates: oracle only (not Lean Chars)",
                  "bidi/format characters (U+202E, U+2028...) are not control characters of the property"]
 TECHNIQUE = "proof"
@@ -353,13 +354,13 @@ def or_str(case):
 
 
 def ml_write(case):
-    return [f"write {enc_str(p)}" for p in case["pieces"]]
+    return [f"write {enc_str(p)}" for p in case["ops"]]
 
 
 def il_write(case):
     out = []
     o, buf = new_output(rec=False)
-    for p in case["pieces"]:
+    for p in case["ops"]:
         o.write(p)
         o.flush()
         out.append(enc_str(buf.getvalue()))
@@ -370,15 +371,15 @@ def il_write(case):
 
 def or_write(case):
     o, buf = new_output(rec=False)
-    for p in case["pieces"]:
+    for p in case["ops"]:
         o.write(p)
     o.flush()
     t = buf.getvalue()
     v = []
     if "\x1b" in t:
-        v.append({"signature": "Vt100_Output.write | ESC in output", "msg": f"{case['pieces']!r} -> {t!r}"})
-    if len(t) != sum(len(p) for p in case["pieces"]):
-        v.append({"signature": "Vt100_Output.write | length changed", "msg": f"{case['pieces']!r} -> {t!r}"})
+        v.append({"signature": "Vt100_Output.write | ESC in output", "msg": f"{case['ops']!r} -> {t!r}"})
+    if len(t) != sum(len(p) for p in case["ops"]):
+        v.append({"signature": "Vt100_Output.write | length changed", "msg": f"{case['ops']!r} -> {t!r}"})
     return v
 
 
@@ -438,7 +439,7 @@ def enc_frags(frs):
 
 def case_styles(case):
     st = {TRANSPARENT, ""}
-    for fr in case["frames"]:
+    for fr in case["ops"]:
         for cp in fr["copies"]:
             for ln in cp["lines"]:
                 st.update(s for s, _ in ln)
@@ -449,7 +450,7 @@ def case_styles(case):
 
 def case_zwe(case):
     z = []
-    for fr in case["frames"]:
+    for fr in case["ops"]:
         for cp in fr["copies"]:
             for ln in cp["lines"]:
                 z += [t for s, t in ln if ZWE in s]
@@ -463,13 +464,13 @@ def ml_render(case):
     o, _ = new_output(rows, cols)
     env, _, _, _ = style_env(case_styles(case), o)
     out = [env, "resetr"]
-    for fr in case["frames"]:
+    for fr in case["ops"]:
         out.append("newscreen")
         for cp in fr["copies"]:
             pre = cp.get("pre")
-            out.append("copy %d %d %d %d %s %d %d %d %s %s %s %s" % (
+            out.append("copy %d %d %d %d %s %d %d %d %d %s %s %s %s" % (
                 cp["xpos"], cp["ypos"], cp["width"], cp["height"], enc_bool(cp["wrap"]), cp["hscroll"],
-                cp["vscroll"], cp["vscroll2"], enc_bool(pre is not None),
+                cp.get("align", 0), cp["vscroll"], cp["vscroll2"], enc_bool(pre is not None),
                 enc_frags(pre[0] if pre else []), enc_frags(pre[1] if pre else []),
                 enc_list(cp["lines"], enc_frags)))
         d = fr.get("diff")
@@ -508,7 +509,7 @@ class _StubApp:
 
 def run_render(case):
     """the real Window._copy_body and _output_screen_diff on the real Screen / Vt100_Output"""
-    from prompt_toolkit.layout.containers import Window
+    from prompt_toolkit.layout.containers import Window, WindowAlign
     from prompt_toolkit.layout.controls import UIContent
     from prompt_toolkit.renderer import _output_screen_diff
 
@@ -520,7 +521,7 @@ def run_render(case):
     win = Window()
     app = _StubApp(win)
     prev, pos, last, prev_width = None, Point(x=0, y=0), None, 0
-    for fr in case["frames"]:
+    for fr in case["ops"]:
         screen = Screen()
         lines_out.append("ok")
         for cp in fr["copies"]:
@@ -534,7 +535,8 @@ def run_render(case):
                 glp = (lambda lineno, wrap_count, p0=p0, pn=pn: p0 if wrap_count == 0 else pn)
             Window()._copy_body(ui, screen, wp, 0, cp["width"], vertical_scroll=cp["vscroll"],
                                 horizontal_scroll=cp["hscroll"], wrap_lines=cp["wrap"],
-                                vertical_scroll_2=cp["vscroll2"], get_line_prefix=glp)
+                                vertical_scroll_2=cp["vscroll2"], get_line_prefix=glp,
+                                align=[WindowAlign.LEFT, WindowAlign.CENTER, WindowAlign.RIGHT][cp.get("align", 0)])
             lines_out.append(dump_screen(screen))
         screens.append(screen)
         d = fr.get("diff")
@@ -895,6 +897,33 @@ def _is_escape_store(t):
     return any(isinstance(n, ast.Attribute) and n.attr == "zero_width_escapes" for n in ast.walk(t))
 
 
+def ml_tok(case):
+    return [f"tok {enc_str(case['s'])}"]
+
+
+def il_tok(case):
+    return [enc_list([t for k, t in tokenize(case["s"]) if k == "c"], enc_str)]
+
+
+GEN_SEQS = ["\x1b[0m", "\x1b[?25l", "\x1b[?7h", "\x1b[12C", "\x1b[A", "\x1b[K", "\x1b[J", "\r\n", "\r", "\x08",
+            "\x1b[0;38;5;102;48;5;231;7m", "\x1b[?12l\x1b[?25h", "\x1b[2 q", "\x1b]133;A\x07", "\x1b]2;t\x1b\\"]
+
+
+def gen_tok(rng):
+    parts = []
+    for _ in range(rng.randrange(0, 8)):
+        k = rng.randrange(4)
+        if k == 0:
+            parts.append(rng.choice(GEN_SEQS))
+        elif k == 1:
+            parts.append(rand_hostile(rng, rng.randrange(1, 6)))
+        elif k == 2:
+            parts.append(rng.choice(["\x1b", "\x1b[", "\x1b[1;", "\x1b]0;", "\x1b(", "\x9b", "\x1b[1 ", "\x1bP", "\x1b\x1b"]))
+        else:
+            parts.append("".join(rng.choice(PRINTABLE[:19]) for _ in range(rng.randrange(1, 5))))
+    return {"kind": "tok", "s": "".join(parts)}
+
+
 # ------------------------------------------------------------------ dispatch
 KINDS = {
     "chars": (ml_chars, il_chars, or_chars),
@@ -902,6 +931,7 @@ KINDS = {
     "write": (ml_write, il_write, or_write),
     "print": (ml_print, il_print, or_print),
     "render": (ml_render, il_render, or_render),
+    "tok": (ml_tok, il_tok, lambda c: []),
     "e2e_prompt": (lambda c: [], lambda c: [], e2e_prompt),
     "e2e_full": (lambda c: [], lambda c: [], e2e_full),
     "ast": (lambda c: [], lambda c: [], lambda c: ast_scan()),
@@ -980,9 +1010,9 @@ def cases(tier, rng):
             s = ""
         yield {"kind": "str", "s": s, "style": rng.choice(STYLES)}
     # ---- Vt100_Output.write
-    yield {"kind": "write", "pieces": [chr(i) for i in range(0, 0x100)] + ["\x1b\x1b", "", "a\x1bb\x1b"]}
+    yield {"kind": "write", "ops": [chr(i) for i in range(0, 0x100)] + ["\x1b\x1b", "", "a\x1bb\x1b"]}
     for _ in range(100 if quick else 3000):
-        yield {"kind": "write", "pieces": [rand_hostile(rng, rng.randrange(0, 12)) for _ in range(rng.randrange(1, 5))]}
+        yield {"kind": "write", "ops": [rand_hostile(rng, rng.randrange(0, 12)) for _ in range(rng.randrange(1, 5))]}
     # ---- print_formatted_text
     for _ in range(150 if quick else 4000):
         yield {"kind": "print", "frags": rand_ft(rng, 10)}
@@ -990,6 +1020,9 @@ def cases(tier, rng):
     yield from gen_small_render(tier)
     for _ in range(600 if quick else 20000):
         yield gen_rand_render(rng)
+    # ---- the tokenizer the theorems use vs the oracle's tokenizer
+    for _ in range(400 if quick else 20000):
+        yield gen_tok(rng)
     # ---- end to end
     for i in range(24 if quick else 300):
         yield gen_e2e_prompt(rng, i)
@@ -1033,7 +1066,7 @@ def gen_small_render(tier):
                                                "lines": [line, [["", "b"]]]}],
                                    "diff": {"is_done": False, "full_screen": wrap, "cursor": [0, 0],
                                             "show_cursor": True}})
-            yield {"kind": "render", "size": [6, 3], "frames": frames, "small": True}
+            yield {"kind": "render", "size": [6, 3], "ops": frames, "small": True}
 
 
 def rand_line(rng, n):
@@ -1060,7 +1093,8 @@ def gen_rand_render(rng):
                 pre = [rand_line(rng, 4), rand_line(rng, 3)]
             copies.append({"xpos": rng.randrange(0, cols - width + 1), "ypos": rng.randrange(0, rows - height + 1),
                            "width": width, "height": height, "wrap": rng.random() < 0.5,
-                           "hscroll": rng.choice([0, 0, 1, 2, 5]), "vscroll": rng.choice([0, 0, 1, 3]),
+                           "hscroll": rng.choice([0, 0, 1, 2, 5]), "align": rng.choice([0, 0, 1, 2]),
+                           "vscroll": rng.choice([0, 0, 1, 3]),
                            "vscroll2": rng.choice([0, 0, 1]), "pre": pre,
                            "lines": [rand_line(rng, rng.choice([2, 6, 14])) for _ in range(rng.randrange(0, 5))]})
         frames.append({"copies": copies,
@@ -1070,7 +1104,7 @@ def gen_rand_render(rng):
     fs = frames[0]["diff"]["full_screen"]
     for fr in frames:
         fr["diff"]["full_screen"] = fs
-    return {"kind": "render", "size": [cols, rows], "frames": frames}
+    return {"kind": "render", "size": [cols, rows], "ops": frames}
 
 
 def gen_e2e_prompt(rng, i):
@@ -1120,14 +1154,14 @@ def case_text(case):
     k = case["kind"]
     if k == "chars":
         return "".join(chr(cp) for cp in list(chunk_cps(case))[:300] if not is_sur(cp))
-    if k == "str":
+    if k in ("str", "tok"):
         return case["s"]
     if k == "write":
-        return "".join(case["pieces"])
+        return "".join(case["ops"])
     if k == "print":
         return "".join(t for _, t in case["frags"])
     if k == "render":
-        return "".join(t for fr in case["frames"] for cp in fr["copies"] for ln in cp["lines"] for _, t in ln)
+        return "".join(t for fr in case["ops"] for cp in fr["copies"] for ln in cp["lines"] for _, t in ln)
     if k in ("e2e_prompt", "e2e_full"):
         parts = list(case["texts"])
         for f in ("message", "toolbar", "rprompt", "continuation", "placeholder"):
@@ -1151,9 +1185,9 @@ def sample_view(case):
     if case["kind"] == "chars" and "cps" in case:
         return dict(case, cps=case["cps"][:8] + [f"... {len(case['cps'])} code points"])
     if case["kind"] == "write":
-        return dict(case, pieces=case["pieces"][:6])
+        return dict(case, ops=case["ops"][:6])
     if case["kind"] == "render" and case.get("small"):
-        return dict(case, frames=case["frames"][:1] + [f"... {len(case['frames'])} frames: widths 1-4 x wrap off/on"])
+        return dict(case, ops=case["ops"][:1] + [f"... {len(case['ops'])} frames: widths 1-4 x wrap off/on"])
     return case
 
 
